@@ -749,7 +749,20 @@ def _ident(I, o):
     raise OutOfSubset('ident() of %r' % (o,))
 
 
+def _kind_pred(test):
+    def f(I, x):
+        return VBool(bool(test(x)))
+    return f
+
+
 PRIMS = {
+    'py_is_int': _kind_pred(lambda x: isinstance(x, (VInt, VBool))),
+    'py_is_bool': _kind_pred(lambda x: isinstance(x, VBool)),
+    'py_is_str': _kind_pred(lambda x: isinstance(x, VStr)),
+    'py_is_bytes': _kind_pred(lambda x: isinstance(x, VSeq) and x.is_bytes),
+    'py_is_float': _kind_pred(lambda x: isinstance(x, VFloat)),
+    'py_is_tuple': _kind_pred(lambda x: isinstance(x, VTuple) or (isinstance(x, VSeq) and x.kind == 'tuple')),
+    'py_is_none': _kind_pred(lambda x: x is VNone),
     'ident': _ident,
     'implies': _implies,
     'typed_bytes': _typed_bytes,
